@@ -10,6 +10,8 @@ import (
 	"fmt"
 	"math/big"
 	"strings"
+	"sync/atomic"
+	"time"
 
 	"github.com/btcsuite/btcd/btcec/v2"
 	"github.com/btcsuite/btcd/btcec/v2/ecdsa"
@@ -93,7 +95,30 @@ func showECDSA(sig *ecdsa.Signature, err error) string {
 
 // ---------------------------------------------------------------- exec (real code)
 
+// Exec runs one line with a watchdog: a signer that never terminates (its self-verification failing on every
+// retry) must surface as a disagreement, not as a hung check.
 func (P) Exec(line string) string {
+	ch := make(chan string, 1)
+	go func() {
+		defer func() {
+			if r := recover(); r != nil {
+				ch <- "panic"
+			}
+		}()
+		ch <- exec1(line)
+	}()
+	select {
+	case out := <-ch:
+		return out
+	case <-time.After(time.Duration(watchdogSecs.Load()) * time.Second):
+		watchdogSecs.Store(2) // after the first hang do not wait long again
+		return "timeout"
+	}
+}
+
+var watchdogSecs = func() *atomic.Int64 { v := new(atomic.Int64); v.Store(20); return v }()
+
+func exec1(line string) string {
 	f := strings.Fields(line)
 	if len(f) < 2 || f[0] != "C11" {
 		return "bad-op"
@@ -135,6 +160,9 @@ func (P) ClassifyMismatch(line, goOut, leanOut string) string {
 	}
 	// the cut input must itself be canonical: re-serialising (without low-S normalisation) gives it back
 	sig, _ := ecdsa.ParseDERSignature(cut)
+	if rr, ss := sig.R(), sig.S(); rr.IsZero() || ss.IsZero() {
+		return ""
+	}
 	if !bytes.Equal(canonDER(sig), cut) {
 		return ""
 	}
